@@ -466,7 +466,6 @@ fn h_tt_linearizable(args: &Args) -> Value {
         for &key in &prefill {
             table.insert(key, entry_for(key, 7));
         }
-        let initial = table.deep_clone();
         let clock = StdArc::new(AtomicU64::new(0));
         // history: (thread, op, result, invoked, returned)
         let hist: StdArc<StdMutex<Vec<(usize, Op, Option<VerifEntry>, u64, u64)>>> = StdArc::new(StdMutex::new(Vec::new()));
@@ -492,22 +491,36 @@ fn h_tt_linearizable(args: &Args) -> Value {
             h.join().unwrap();
         }
         let h = hist.lock().unwrap().clone();
-        // brute force: some order consistent with real time must reproduce all results
-        // and the final table contents
+        // brute force against the abstract specification (not against the real table run
+        // sequentially, whose replacement choice need not be a function of its inputs):
+        // some order consistent with real time, and some choice of the displaced key at
+        // every insertion into a full bucket, must explain every result and the final contents
         let n = h.len();
-        let final_slots = table.slots();
-        let mut order: Vec<usize> = Vec::new();
-        let mut used = vec![false; n];
-        fn rec(h: &[(usize, Op, Option<VerifEntry>, u64, u64)], order: &mut Vec<usize>, used: &mut Vec<bool>, initial: &VerifTable, final_slots: &Vec<Vec<Vec<Option<(u64, VerifEntry)>>>>) -> bool {
+        let route = |k: u64| ((k as usize) % tables, (k as usize) % buckets);
+        let mut all_keys: Vec<u64> = prefill.clone();
+        for x in &h {
+            let k = match x.1 {
+                Op::Insert(k, _) | Op::Find(k) => k,
+            };
+            if !all_keys.contains(&k) {
+                all_keys.push(k);
+            }
+        }
+        let final_live: BTreeMap<u64, VerifEntry> = all_keys.iter().filter_map(|&k| table.find(k).map(|e| (k, e))).collect();
+        let mut initial_live: BTreeMap<u64, VerifEntry> = BTreeMap::new();
+        for &k in &prefill {
+            initial_live.insert(k, entry_for(k, 7));
+        }
+        fn rec(
+            h: &[(usize, Op, Option<VerifEntry>, u64, u64)],
+            used: &mut Vec<bool>,
+            live: &BTreeMap<u64, VerifEntry>,
+            final_live: &BTreeMap<u64, VerifEntry>,
+            route: &dyn Fn(u64) -> (usize, usize),
+        ) -> bool {
             let n = h.len();
-            if order.len() == n {
-                let t = initial.deep_clone();
-                for &i in order.iter() {
-                    if apply(&t, h[i].1) != h[i].2 {
-                        return false;
-                    }
-                }
-                return t.slots() == *final_slots;
+            if used.iter().all(|&u| u) {
+                return live == final_live;
             }
             for i in 0..n {
                 if used[i] {
@@ -518,18 +531,37 @@ fn h_tt_linearizable(args: &Args) -> Value {
                     continue;
                 }
                 used[i] = true;
-                order.push(i);
-                if rec(h, order, used, initial, final_slots) {
+                let ok = match h[i].1 {
+                    Op::Find(k) => live.get(&k).copied() == h[i].2 && rec(h, used, live, final_live, route),
+                    Op::Insert(k, v) => {
+                        let e = entry_for(k, v);
+                        let in_bucket: Vec<u64> = live.keys().copied().filter(|x| route(*x) == route(k)).collect();
+                        if live.contains_key(&k) || in_bucket.len() < VerifTable::BUCKET_SIZE {
+                            let mut l2 = live.clone();
+                            l2.insert(k, e);
+                            rec(h, used, &l2, final_live, route)
+                        } else {
+                            // full bucket: exactly one other key of the bucket is displaced
+                            in_bucket.iter().any(|victim| {
+                                let mut l2 = live.clone();
+                                l2.remove(victim);
+                                l2.insert(k, e);
+                                rec(h, used, &l2, final_live, route)
+                            })
+                        }
+                    }
+                };
+                used[i] = false;
+                if ok {
                     return true;
                 }
-                order.pop();
-                used[i] = false;
             }
             false
         }
-        let ok = rec(&h, &mut order, &mut used, &initial, &final_slots);
+        let mut used = vec![false; n];
+        let ok = rec(&h, &mut used, &initial_live, &final_live, &route);
         if !ok {
-            sh.violation(json!({"kind": "not-linearizable", "history": h.iter().map(|x| format!("t{} {:?} -> {:?} [{}..{}]", x.0, x.1, x.2.map(|e| e.depth), x.3, x.4)).collect::<Vec<_>>()}));
+            sh.violation(json!({"kind": "not-linearizable", "history": h.iter().map(|x| format!("t{} {:?} -> {:?} [{}..{}]", x.0, x.1, x.2.map(|e| e.depth), x.3, x.4)).collect::<Vec<_>>(), "final_live_keys": final_live.keys().collect::<Vec<_>>()}));
         }
         if table.entries() != table.occupied_slots() || table.entries() > table.max_entries() {
             sh.violation(json!({"kind": "entry-count-drift", "entries": table.entries(), "occupied": table.occupied_slots(), "capacity": table.max_entries()}));
